@@ -118,6 +118,18 @@ Theorem C03_compile_reaches_target_partial : forall C T width (orcs : T -> oracl
   (o_cost C (orcs t) c < threshold cfg)%Z /\ d_target d = t.
 Proof. exact workflow_success_reaches_target. Qed.
 
+(* ---- PermutationAwareSynthesisPass (optimization level 4) -------------------------------- *)
+(* For every inner synthesis, scoring function and permutation algebra with Po.T/Pi of the identity
+   tuple acting trivially: the circuit PAS returns implements PF^T . U . PI for exactly the
+   (initial_mapping, final_mapping) = (PI, PF) it writes into the PassData. *)
+Theorem C03_pas_reported_mapping : forall (T C P : Type) (perms : list P) (idp : P)
+    (lmulT : P -> T -> T) (rmul : T -> P -> T) (synth : nat -> T -> C) (score : C -> Z) (impl : C -> T -> Prop),
+  (forall i t, impl (synth i t) t) -> (forall t, lmulT idp t = t) -> (forall t, rmul t idp = t) ->
+  forall ip op utry c pi pf,
+  pas T C P perms idp lmulT rmul synth score ip op utry = Some (c, pi, pf) ->
+  impl c (lmulT pf (rmul utry pi)).
+Proof. exact pas_reported_mapping. Qed.
+
 (* ---- what the threshold means ------------------------------------------------------------ *)
 (* unitary: entries u of the circuit unitary, t of the target (N x N, squared Frobenius norm N):
    cost = 1 - |tr(T^dagger U)|/N < eps gives a global phase p with |U - pT|_F^2 = 2 N cost < 2 N eps *)
@@ -196,6 +208,13 @@ Definition ex_leap_orc : oracles nat :=
 Example C03_ex_leap_prefix :
   exists c l, In (EPrefix nat c l) (s_tr nat (snd (leap ex_leap_orc (mkConfig 3 None) linreg_delta_neg 1 3))).
 Proof. exists 3%nat, 3%nat. vm_compute. tauto. Qed.
+
+(* PAS over the additive group Z/3 as "permutations" acting on numbers: targets u - po + pi;
+   the candidate with the least score (here: the target value itself) wins and its mapping is reported *)
+Example C03_ex_pas :
+  pas Z Z Z [0; 1; 2] 0 (fun po t => t - po) (fun t pi => t + pi) (fun _ t => t) (fun c => c) false true 10 = Some (8, 0, 2)
+  /\ pas Z Z Z [0; 1; 2] 0 (fun po t => t - po) (fun t pi => t + pi) (fun _ t => t) (fun c => Z.abs (c - 11)) true true 10 = Some (11, 1, 0).
+Proof. split; vm_compute; reflexivity. Qed.
 
 Example C03_ex_list_order :
   compile_list nat nat (fun k => 100 + k)%nat (fun x => x * x)%nat (@rev _) [3; 1; 2]%nat = Some [9; 1; 4]%nat.
